@@ -137,6 +137,11 @@ func c01Run(c *mc.Ctx) {
 		// 2^p + d and every round-number threshold (3·2^k, 10^k, 2·10^k, 5·10^k, each ±1) in between
 		lens := gen.SizesAround(10, 16, []int{-1, 0, 1, 2, 3, 5, 7, 8, 9})
 		lens = append(lens, 12345)
+		// and EVERY length between the sequential sweep (0..520, thorough 2100) and 2^10: no gap in the
+		// length coordinate below the thresholds
+		for l := 521; l <= 1022; l++ {
+			lens = append(lens, l)
+		}
 		type job struct{ l, p int }
 		var jobs []job
 		for _, l := range lens {
